@@ -111,6 +111,92 @@ func genMutCase(t *rapid.T, keyOpts bool) mutCase {
 // (the implication of the property), for all seven decoders on the same
 // bytes (so the encoding of another kind is offered to each of them).
 func checkC05(c mutCase) error {
+	if err := checkC05One(c); err != nil {
+		return err
+	}
+	// the verdict on an input is a function of that input: right after the decoders have seen it, they
+	// are offered its twins, in which one layer's protected header map sits in the unprotected bucket or
+	// the other way round (byte-identical maps, so anything remembered about "these bytes" is wrong here)
+	for i, tw := range c05Twins(c.Wire) {
+		tc := mutCase{SeedKind: c.SeedKind, Seed: c.Seed, Wire: tw, Muts: append(append([]gen.Mutation{}, c.Muts...), gen.Mutation{Op: "twin/bucket-moved", Path: fmt.Sprint(i)})}
+		stats.Class("twin-with-a-header-map-in-the-other-bucket")
+		if err := checkC05One(tc); err != nil {
+			return err
+		}
+	}
+	return nil
+}
+
+// c05Layers collects, in document order, every array that looks like a COSE layer: [bstr, map, ...].
+func c05Layers(m *rc.M, out *[]*rc.M) {
+	if m == nil {
+		return
+	}
+	if m.Major == 4 && len(m.Items) >= 3 && m.Items[0].Major == 2 && m.Items[0].Verb == nil && m.Items[1].Major == 5 {
+		*out = append(*out, m)
+	}
+	for _, x := range m.Items {
+		c05Layers(x, out)
+	}
+	for _, x := range m.Vals {
+		c05Layers(x, out)
+	}
+	c05Layers(m.Child, out)
+}
+
+func c05Twins(wire []byte) [][]byte {
+	root, err := rc.MParse(wire, false)
+	if err != nil {
+		return nil
+	}
+	var layers []*rc.M
+	c05Layers(root, &layers)
+	var out [][]byte
+	for i := range layers {
+		if i >= 3 {
+			break
+		}
+		for dir := 0; dir < 2; dir++ {
+			r2 := root.Clone()
+			var l2 []*rc.M
+			c05Layers(r2, &l2)
+			l := l2[i]
+			if dir == 0 {
+				// the protected map, byte for byte, as the unprotected bucket
+				b := l.Items[0].Bytes
+				if len(b) == 0 || b[0]>>5 != 5 {
+					continue
+				}
+				l.Items[1] = &rc.M{Verb: append([]byte{}, b...)}
+			} else {
+				// the unprotected map, byte for byte, as the content of the protected bucket
+				enc := l.Items[1].Enc()
+				if len(enc) < 2 {
+					continue
+				}
+				l.Items[0] = &rc.M{Major: 2, W: widthOf(uint64(len(enc))), Arg: uint64(len(enc)), Bytes: enc}
+			}
+			out = append(out, r2.Enc())
+		}
+	}
+	return out
+}
+
+func widthOf(n uint64) int {
+	switch {
+	case n < 24:
+		return 0
+	case n < 1<<8:
+		return 1
+	case n < 1<<16:
+		return 2
+	case n < 1<<32:
+		return 4
+	}
+	return 8
+}
+
+func checkC05One(c mutCase) error {
 	changed := string(c.Wire) != string(c.Seed)
 	nt := false
 	for _, k := range allKinds {
